@@ -1,5 +1,6 @@
 """C04 — Written documents are complete, closed under reachability and faithful."""
 from harness import casgen, common, refio, sessions
+from harness.common import bud
 from harness.props import c01
 
 PROP = "C04"
@@ -27,7 +28,7 @@ def run(ctx, out, budget):
                 "(own reachability walk); ids distinct, sofa references and members resolve. Non-trivial = distinct CASes with a "
                 "structure that is only reachable through a reference.")
     rng = ctx.rng(0)
-    n = 150 if budget == "quick" else 18000
+    n = bud(budget, 150, 18000)
     cases = [casgen.CasGen(rng, n_types=rng.randint(1, 6), n_fs=rng.randint(1, 12), xmi_safe=True).build() for _ in range(n)]
     sess = []
     for g in cases:
